@@ -69,6 +69,9 @@ func histories(t *testing.T, backend sim.Backend) {
 		if res.Hung != "" {
 			t.Fatalf("VERIF-INFRA: %s\n  program: %s", res.Hung, prog)
 		}
+		if res.Void != "" {
+			t.Skip("void case: " + res.Void)
+		}
 		if res.Infra != "" {
 			t.Fatalf("VERIF-INFRA: %s | %s", res.Infra, prog)
 		}
@@ -148,6 +151,9 @@ func crashHistories(t *testing.T, backend sim.Backend) {
 	rapid.Check(t, func(t *rapid.T) {
 		p := scen.Gen(t, backend)
 		base := scen.Run(p, scen.Opts{Rules: rules})
+		if base.Void != "" {
+			t.Skip("void case: " + base.Void)
+		}
 		if base.Hung != "" || base.Infra != "" {
 			t.Fatalf("VERIF-INFRA: %s %s | %s", base.Hung, base.Infra, p)
 		}
@@ -162,6 +168,9 @@ func crashHistories(t *testing.T, backend sim.Backend) {
 			}
 			for _, mode := range []string{"kill", "killAfter"} {
 				o := scen.Run(p, scen.Opts{Faults: []sim.FaultSpec{{Type: "", Index: i, Action: mode}}, KillIfAlive: true, Rules: rules})
+				if o.Void != "" {
+					t.Skip("void case: " + o.Void)
+				}
 				if o.Hung != "" || o.Infra != "" {
 					t.Fatalf("VERIF-INFRA: %s %s | crash=%s@%d | %s", o.Hung, o.Infra, mode, i, p)
 				}
